@@ -182,9 +182,10 @@ Proof.
   - intro H. injection H as -> -> -> ->. repeat split.
 Qed.
 
-Lemma P_att_unfold : forall pr kn prev dslot cur no_acct atts jobs,
-  P_att pr kn prev dslot cur false no_acct atts jobs =
+Lemma P_att_unfold : forall pr kn_all kn prev dslot cur no_acct atts jobs,
+  P_att pr kn_all kn prev dslot cur false no_acct atts jobs =
   (let js := map fst jobs in
+   let sub_may := known_get (dslot / spe pr) kn_all in
    let sub := known_get (dslot / spe pr) kn in
    forallb (fun j => memb job_eqb j js) prev &&
    nodupb pair_eqb (map jkey js) &&
@@ -192,7 +193,7 @@ Lemma P_att_unfold : forall pr kn prev dslot cur no_acct atts jobs,
                         (Some (j_dslot (fst jo), j_root (fst jo), j_val (fst jo), j_sig (fst jo)))) jobs &&
    forallb (fun j =>
      memb pair_eqb (jkey j) (map jkey prev) ||
-     match sub with
+     match sub_may with
      | None => false
      | Some (sign_fail, ds) =>
          existsb (fun a => pair_eqb (a_slot a, a_comm a) (jkey j) && (a_root a =? j_root j)) atts &&
@@ -222,14 +223,14 @@ Proof. reflexivity. Qed.
    an attested committee, not in the past, at StartOfSlot + delay, for one of our validators that
    has that duty with its own slot signature (selected, when the answer was self-consistent); and
    every attested committee with a selected validator (accounts obtainable) has a job. *)
-Lemma P_att_sound : forall pr kn prev dslot cur no_acct atts jobs,
-  P_att pr kn prev dslot cur false no_acct atts jobs = true ->
+Lemma P_att_sound : forall pr kn_all kn prev dslot cur no_acct atts jobs,
+  P_att pr kn_all kn prev dslot cur false no_acct atts jobs = true ->
   let js := map fst jobs in
   (forall j, In j prev -> In j js) /\
   NoDup (map jkey js) /\
   (forall j o, In (j, o) jobs -> o = Some (j_dslot j, j_root j, j_val j, j_sig j)) /\
   (forall j, In j js -> ~ In (jkey j) (map jkey prev) ->
-     exists sf ds, known_get (dslot / spe pr) kn = Some (sf, ds) /\
+     exists sf ds, known_get (dslot / spe pr) kn_all = Some (sf, ds) /\
        (exists a, In a atts /\ akey a = jkey j /\ a_root a = j_root j) /\
        cur <= j_slot j /\ j_time j = j_slot j * slot_ms pr + delay_ms pr /\ j_dslot j = j_slot j /\
        acct_ok_of no_acct (j_val j) = true /\
@@ -242,7 +243,7 @@ Lemma P_att_sound : forall pr kn prev dslot cur no_acct atts jobs,
                    acct_ok_of no_acct (d_val d') = true) ->
        In (akey a) (map jkey js)).
 Proof.
-  intros pr kn prev dslot cur no_acct atts jobs H js. rewrite P_att_unfold in H. cbv zeta in H. fold js in H.
+  intros pr kn_all kn prev dslot cur no_acct atts jobs H js. rewrite P_att_unfold in H. cbv zeta in H. fold js in H.
   apply andb_true_iff in H as [H H5]. apply andb_true_iff in H as [H H4].
   apply andb_true_iff in H as [H H3]. apply andb_true_iff in H as [H1 H2].
   rewrite forallb_forall in H1, H3, H4. apply nodupb_iff in H2.
@@ -252,7 +253,7 @@ Proof.
     apply (option_eqb_spec quad_eqb quad_eqb_iff) in H3. exact H3.
   - intros j Hj Hn. specialize (H4 j Hj). apply orb_true_iff in H4 as [H4|H4].
     + apply memb_pair_iff in H4. contradiction.
-    + destruct (known_get (dslot / spe pr) kn) as [[sf ds]|]; [|discriminate].
+    + destruct (known_get (dslot / spe pr) kn_all) as [[sf ds]|]; [|discriminate].
       exists sf, ds. split; [reflexivity|].
       repeat (apply andb_true_iff in H4 as [H4 ?]).
       match goal with X : existsb _ ds = true |- _ => apply existsb_exists in X as (d & Hd & Hb) end.
@@ -368,8 +369,9 @@ Qed.
 
 (* P_att on any rearrangement of the model's job table *)
 Section ModelPAtt.
-  Variables (pr : params) (kn : known) (prev base : list job) (dslot cur : N) (af : bool)
+  Variables (pr : params) (kn_all kn : known) (prev base : list job) (dslot cur : N) (af : bool)
             (no_acct : list N) (atts : list att) (jobs' : list (job * option (N * N * N * N))).
+  Hypothesis Hsubset : forall ep v, known_get ep kn = Some v -> known_get ep kn_all = Some v.
   Hypothesis Hprev : Permutation prev base.
   Hypothesis Hinv : jobs_inv pr base.
   Hypothesis Hsnd : forall jo, In jo jobs' -> snd jo = Some (aggregate_out (fst jo)).
@@ -385,7 +387,7 @@ Section ModelPAtt.
   Lemma P_att_model_none :
     (if af then None else known_get (dslot / spe pr) kn) = None ->
     Permutation (map fst jobs') base ->
-    P_att pr kn prev dslot cur af no_acct atts jobs' = true.
+    P_att pr kn_all kn prev dslot cur af no_acct atts jobs' = true.
   Proof.
     intros Hsub Hperm. unfold P_att. cbv zeta. rewrite Hsub.
     repeat (apply andb_true_iff; split); [| | | |reflexivity].
@@ -403,9 +405,12 @@ Section ModelPAtt.
     digests_ok ds ->
     Permutation (map fst jobs')
       (attest_run pr (subscription_info (agg_target pr) (sign_ok_of sf) ds) cur (acct_ok_of no_acct) base atts) ->
-    P_att pr kn prev dslot cur af no_acct atts jobs' = true.
+    P_att pr kn_all kn prev dslot cur af no_acct atts jobs' = true.
   Proof.
-    intros sf ds Hsub G Hperm. unfold P_att. cbv zeta. rewrite Hsub.
+    intros sf ds Hsub G Hperm.
+    assert (Hmay : (if af then None else known_get (dslot / spe pr) kn_all) = Some (sf, ds)).
+    { destruct af; [discriminate|]. apply Hsubset. exact Hsub. }
+    unfold P_att. cbv zeta. rewrite Hsub, Hmay.
     set (info := subscription_info (agg_target pr) (sign_ok_of sf) ds) in *.
     set (jobs := attest_run pr info cur (acct_ok_of no_acct) base atts) in *.
     destruct Hinv as [ND W].
@@ -613,13 +618,29 @@ Proof.
   intros x y. apply list_eqb_spec. apply subscription_eqb_iff.
 Qed.
 
-Lemma agree_implies_spec_ok : forall pr ops st kn prev obs,
+Definition kn_subset (kn kn_all : known) : Prop :=
+  forall ep v, known_get ep kn = Some v -> known_get ep kn_all = Some v.
+
+Lemma kn_subset_set : forall kn kn_all ep v,
+  kn_subset kn kn_all -> kn_subset (known_set ep v kn) (known_set ep v kn_all).
+Proof.
+  intros kn kn_all ep v S ep' v'. rewrite !known_get_set. destruct (ep =? ep'); [auto|apply S].
+Qed.
+
+Lemma kn_subset_prune : forall kn kn_all hepoch,
+  kn_subset kn kn_all -> kn_subset (known_prune hepoch kn) kn_all.
+Proof.
+  intros kn kn_all hepoch S ep v. rewrite known_get_prune. destruct (old_epoch ep hepoch); [discriminate|apply S].
+Qed.
+
+Lemma agree_implies_spec_ok : forall pr ops st kn_all kn prev obs,
+  kn_subset kn kn_all ->
   inv_infos pr st kn -> kn_digests kn -> Permutation prev (st_jobs st) -> jobs_inv pr (st_jobs st) ->
   Forall op_digests ops ->
   outs_agree (snd (run pr st ops)) obs = true ->
-  spec_ok pr kn prev ops obs = true.
+  spec_ok pr kn_all kn prev ops obs = true.
 Proof.
-  intros pr ops. induction ops as [|o ops IH]; intros st kn prev obs I K P J D A.
+  intros pr ops. induction ops as [|o ops IH]; intros st kn_all kn prev obs S I K P J D A.
   - cbn [run snd outs_agree] in A. destruct obs; [reflexivity|discriminate].
   - inversion D as [|? ? Do D']; subst.
     cbn [run] in A. destruct (step pr st o) as [st1 x] eqn:Es.
@@ -640,28 +661,29 @@ Proof.
         intros ep Hep. eapply Permutation_in; [apply Permutation_sym, Permutation_map, sort_by_perm|exact Hep].
       - rewrite <- Ej in P, J. cbn [step] in E1. unfold head_effective.
         destruct (hslot =? cur0); cbn [fst] in E1; subst st1.
-        + refine (IH _ _ _ _ _ _ P J D' A2'); [apply inv_infos_prune; assumption|apply kn_digests_prune; exact K].
-        + exact (IH _ _ _ _ I K P J D' A2'). }
+        + refine (IH _ _ _ _ _ _ _ _ P J D' A2');
+            [apply kn_subset_prune; exact S|apply inv_infos_prune; assumption|apply kn_digests_prune; exact K].
+        + exact (IH _ _ _ _ _ S I K P J D' A2'). }
     + (* subscribe *)
       cbn [step] in Es. cbn [spec_ok].
       destruct na.
       * injection Es as <- <-. destruct ob as [calls' stored'| | |]; try discriminate.
         cbn [out_agrees] in A1. apply andb_true_iff in A1 as [A1 _]. apply list_eqb_subscription in A1. subst calls'.
         cbn [map]. rewrite P_sub_nothing by reflexivity. cbn [andb].
-        refine (IH _ _ _ _ _ _ _ _ D' A2'); [| |exact P|exact J].
+        refine (IH _ _ _ _ _ _ _ _ _ _ D' A2'); [apply kn_subset_set; exact S| | |exact P|exact J].
         -- apply (inv_infos_set pr st kn ep ([], []) (st_jobs st)). exact I.
         -- apply kn_digests_set; [exact K| |apply Do]. intros d [].
       * destruct df.
         -- injection Es as <- <-. destruct ob as [calls' stored'| | |]; try discriminate.
            cbn [out_agrees] in A1. apply andb_true_iff in A1 as [A1 _]. apply list_eqb_subscription in A1. subst calls'.
            cbn [map]. rewrite P_sub_nothing by reflexivity. cbn [andb].
-           exact (IH _ _ _ _ I K P J D' A2').
+           exact (IH _ _ _ _ _ S I K P J D' A2').
         -- injection Es as <- <-. destruct ob as [calls' stored'| | |]; try discriminate.
            cbn [out_agrees] in A1. apply andb_true_iff in A1 as [A1 _]. apply list_eqb_subscription in A1. subst calls'.
            cbn [map]. cbn [op_digests] in Do.
            destruct Do as [Do Db].
            rewrite model_satisfies_P_sub_perm; [|exact Do|apply sort_by_perm]. cbn [andb].
-           refine (IH _ _ _ _ _ _ _ _ D' A2'); [| |exact P|exact J].
+           refine (IH _ _ _ _ _ _ _ _ _ _ D' A2'); [apply kn_subset_set; exact S| | |exact P|exact J].
            ++ apply (inv_infos_set pr st kn ep (sf, ds) (st_jobs st)). exact I.
            ++ apply kn_digests_set; assumption.
     + (* attest *)
@@ -680,7 +702,7 @@ Proof.
            ++ destruct af; [discriminate|]. eapply K. exact Esub.
            ++ rewrite <- R3. exact Hperm.
         -- eapply P_att_model_none; try eassumption. rewrite <- R3. exact Hperm.
-      * refine (IH _ _ _ _ _ K _ _ D' A2'); [|exact Hperm|].
+      * refine (IH _ _ _ _ _ S _ K _ _ D' A2'); [|exact Hperm|].
         -- intro ep. rewrite R2. apply I.
         -- pose proof (proj2 (step_jobs pr st (OAtt dslot cur0 af na atts)) J) as J1. rewrite Es in J1. exact J1.
 Qed.
@@ -691,6 +713,7 @@ Definition case_digests_ok (c : case) : Prop := Forall op_digests (c_ops c).
 Lemma agree_implies_P_b : forall c, case_digests_ok c -> agree c = true -> P_b c = true.
 Proof.
   intros c D A. unfold P_b, agree in *. eapply agree_implies_spec_ok; try eassumption.
+  - intros ep v H. exact H.
   - intro ep. reflexivity.
   - intros ep sf ds H. discriminate.
   - apply Permutation_refl.
